@@ -57,8 +57,9 @@ instance : ToExpr Rule where
   toExpr r := mkApp3 (mkConst ``PegVerif.Rule.mk) (mkStrLit r.name) (mkNatLit r.id) (toExpr r.body)
   toTypeExpr := mkConst ``PegVerif.Rule
 instance : ToExpr Linked where
-  toExpr L := mkApp3 (mkConst ``PegVerif.Linked.mk)
+  toExpr L := mkApp4 (mkConst ``PegVerif.Linked.mk)
     (mkApp (mkConst ``PegVerif.Grammar.mk) (toExpr L.G.rules)) (toExpr L.actions) (toExpr L.dup)
+    (toExpr L.referenced)
   toTypeExpr := mkConst ``PegVerif.Linked
 
 /-- Close `a = b` with `Eq.refl a`; the KERNEL checks that `a` and `b` are definitionally equal
